@@ -14,6 +14,7 @@ with n intervals.
 """
 
 import ast
+from ..source import clone as _clone
 
 from ..flow import Flow
 from ..norm import NotAlgebraic, Poly, py_poly, sql_poly
@@ -200,7 +201,7 @@ def run(ctx, chk, tier="quick"):
                     return ast.Name(id="N", ctx=ast.Load())
                 return self.generic_visit(node)
         import copy
-        c_all = py_poly(R().visit(copy.deepcopy(cexpr)))
+        c_all = py_poly(R().visit(_clone(cexpr)))
         sigma = None
         if c_all == Poly.atom("N").inverse():
             sigma = 1
@@ -290,7 +291,7 @@ def run(ctx, chk, tier="quick"):
                 mean_all = isinstance(g2.iter, ast.Name) and g2.iter.id == members and not g2.ifs \
                     and isinstance(g2.target, ast.Tuple) and len(g2.target.elts) == 2 and isinstance(marg.elt, ast.Name) \
                     and isinstance(g2.target.elts[1], ast.Name) and marg.elt.id == g2.target.elts[1].id
-        rp = py_poly(M().visit(copy.deepcopy(rexpr)))
+        rp = py_poly(M().visit(_clone(rexpr)))
         want = Poly.atom(tval) - Poly.atom("MEAN")
         rhs_ok = sigma is not None and rp == want.scale(sigma) and mean_all
         chk.ob("C05.O1", rhs_ok, where_of(f, rhs), "right-hand side = %s with MEAN = %s" % (rp.key(), ast.unparse(mcalls[0]) if mcalls else "?"),
